@@ -27,7 +27,7 @@ def is_ch(v):
 
 
 def is_idx(v):
-    return isinstance(v, Sym) and isinstance(v.name, tuple) and len(v.name) == 2 and v.name[0] == "idx"
+    return isinstance(v, Sym) and isinstance(v.name, tuple) and len(v.name) == 2 and v.name[0] in ("idx", "boff")
 
 
 def map_value(v, f):
@@ -51,10 +51,10 @@ def age_sym(s):
     n = s.name
     if isinstance(n, tuple) and n and n[0] == "ch" and len(n) == 3:
         return Sym(("ch", min(n[1] + 1, MAX_AGE), n[2]), s.ty)
-    if isinstance(n, tuple) and n and n[0] == "idx" and len(n) == 2:
-        return Sym(("idx", min(n[1] + 1, MAX_AGE)), s.ty)
-    if isinstance(n, tuple) and n and n[0] == "lin" and isinstance(n[1], tuple) and n[1] and n[1][0] == "idx":
-        return Sym(("lin", ("idx", min(n[1][1] + 1, MAX_AGE)), n[2]), s.ty)
+    if isinstance(n, tuple) and n and n[0] in ("idx", "boff") and len(n) == 2:
+        return Sym((n[0], min(n[1] + 1, MAX_AGE)), s.ty)
+    if isinstance(n, tuple) and n and n[0] == "lin" and isinstance(n[1], tuple) and n[1] and n[1][0] in ("idx", "boff"):
+        return Sym(("lin", (n[1][0], min(n[1][1] + 1, MAX_AGE)), n[2]), s.ty)
     return s
 
 
@@ -69,11 +69,70 @@ def age_state(st):
             st.ext[k] = map_value(st.ext[k], age_sym)
 
 
+def _refs_in(v, out):
+    if isinstance(v, Ref):
+        if v.loc[0] == "frame":
+            out.add((v.loc[1], v.loc[2]))
+        elif v.loc[0] in ("val", "valp"):
+            _refs_in(v.loc[1], out)
+    elif isinstance(v, (Adt, Tup)):
+        for x in v.fields:
+            _refs_in(x, out)
+    elif isinstance(v, Clo):
+        for x in v.captures:
+            _refs_in(x, out)
+    elif isinstance(v, Opq) and isinstance(v.data, tuple):
+        for x in v.data:
+            _refs_in(x, out)
+
+
+def _live_sets(body):
+    ls = getattr(body, "_live", None)
+    if ls is None:
+        from . import mir
+
+        ls = body._live = mir.liveness(body)
+    return ls
+
+
+def live_locals(st):
+    """Per frame uid: locals whose value can still be observed (liveness at the suspension point, closed
+    under references held by live values)."""
+    from . import mir
+
+    live = {}
+    for i, fr in enumerate(st.frames):
+        live_in, live_out = _live_sets(fr.body)
+        t = fr.body.blocks[fr.bb]["term"]
+        if i == len(st.frames) - 1:
+            uses, defs = mir.term_uses_defs(t)
+            cur = (set(live_out[fr.bb]) - defs) | uses
+        else:
+            # a caller frame waiting for its callee: what is live when the call returns
+            cur = set(live_in[t["target"]]) - ({t["dest"]["l"]} if not t["dest"]["p"] else set()) if t.get("target") is not None else set()
+        live[fr.uid] = cur
+    changed = True
+    by_uid = {fr.uid: fr for fr in st.frames}
+    while changed:
+        changed = False
+        for fr in st.frames:
+            for l in list(live[fr.uid]):
+                if l in fr.locals:
+                    refs = set()
+                    _refs_in(fr.locals[l], refs)
+                    for uid, ll in refs:
+                        if uid in live and ll not in live[uid]:
+                            live[uid].add(ll)
+                            changed = True
+    return live
+
+
 def canon(st):
-    """Hashable description of a suspended state."""
+    """Hashable description of a suspended state (dead locals do not distinguish states)."""
+    live = live_locals(st)
     frames = []
     for fr in st.frames:
-        items = tuple(sorted((l, v) for l, v in fr.locals.items()))
+        items = tuple(sorted((l, v) for l, v in fr.locals.items() if l in live[fr.uid]))
         frames.append((fr.body.key, fr.bb, fr.si, items))
     heap = tuple(sorted(st.heap.items(), key=repr))
     ext = tuple(sorted(((k, v) for k, v in st.ext.items() if k.startswith("v:")), key=repr))
@@ -92,9 +151,12 @@ class CutWorld(OracleWorld):
     def _deliver(self, m, st, itref, enumerate_):
         it = m.load(st, itref.loc) if isinstance(itref, Ref) else itref
         inner = it
+        idx_kind = "idx"
         if isinstance(inner, Opq) and inner.kind == "enumerate":
             inner = inner.data[0]
-        if not (isinstance(inner, Opq) and inner.kind == "chars" and isinstance(inner.data[0], Str) and inner.data[0].tag == self.input_tag):
+        elif isinstance(inner, Opq) and inner.kind == "char_indices":
+            idx_kind = "boff"
+        if not (isinstance(inner, Opq) and inner.kind in ("chars", "char_indices") and isinstance(inner.data[0], Str) and inner.data[0].tag == self.input_tag):
             raise AnalysisError("iteration over something other than the designated input: %r" % (inner,))
         letter = st.ext.get("letter")
         if letter is None:
@@ -107,14 +169,17 @@ class CutWorld(OracleWorld):
             raise AnalysisError("next() after the iterator returned None")
         age_state(st)
         c = ch(0, letter)
-        if enumerate_:
-            return ip.some(Tup((Sym(("idx", 0), "usize"), c)))
+        if enumerate_ or idx_kind == "boff":
+            return ip.some(Tup((Sym((idx_kind, 0), "usize"), c)))
         return ip.some(c)
 
     def chars_next(self, m, st, itref):
         return self._deliver(m, st, itref, False)
 
     def enumerate_next(self, m, st, itref):
+        return self._deliver(m, st, itref, True)
+
+    def char_indices_next(self, m, st, itref):
         return self._deliver(m, st, itref, True)
 
     def cast_hook(self, st, v, from_ty, to_ty):
